@@ -132,6 +132,16 @@ theorem graph_to_density_same_state_as_graph_to_stabilizer (n : Nat) (adj : Adj)
   have s := czEdges_spanEq_graphSTab n adj edges hne hA
   exact ⟨s.n_eq, fun p => ⟨s.sub p, s.sup p⟩⟩
 
+/-- in particular **for every simple graph** with its edge list `list(graph.edges)` (each edge once, `u < v`): graph → density and
+    graph → stabilizer denote the same state -/
+theorem graph_to_density_same_state_simple_graph (n : Nat) (adj : Adj) (hsym : ∀ i j, i < n → j < n → adj i j = adj j i)
+    (hirr : ∀ i, i < n → adj i i = false) :
+    ∀ p, (czEdges (plusSTab n) (S2G.edgesOf n adj)).Spn p ↔ (graphSTab n adj).Spn p := by
+  have s := czEdges_edgesOf_spanEq n adj hsym hirr
+  exact fun p => ⟨s.sub p, s.sup p⟩
+
+example : S2G.edgesOf 3 tri = [(0, 1), (0, 2), (1, 2)] := by decide
+
 /-- non-vacuity: the triangle with its three edges -/
 example : (∀ i j, i < 3 → j < 3 → tri i j = tri j i) ∧ (∀ i, i < 3 → tri i i = false) ∧
     (∀ e, e ∈ [(0, 1), (1, 2), (0, 2)] → e.1 ≠ e.2) ∧
